@@ -57,6 +57,9 @@ namespace BitSerializer
 			KeyValueProxy::SplitAndSerialize(archive, std::forward<T>(object));
 			archive.Finalize();
 			context.OnFinishSerialization();
+			if (input.bad()) {
+				throw SerializationException(SerializationErrorCode::InputOutputError, "Failed to read from the input stream");
+			}
 		}
 	}
 
